@@ -29,6 +29,14 @@ def jdefault(o):
     return str(o)
 
 
+def rss_mb():
+    try:
+        with open('/proc/self/statm') as fh:
+            return int(fh.read().split()[1]) * os.sysconf('SC_PAGE_SIZE') // (1 << 20)
+    except Exception:
+        return 0
+
+
 def cmd_run(argv):
     prop, tier, vseed, k, W, n, out = argv[0], argv[1], int(argv[2]), int(argv[3]), int(argv[4]), int(argv[5]), argv[6]
     cap = float(argv[7]) if len(argv) > 7 else 1e9
@@ -38,11 +46,22 @@ def cmd_run(argv):
     if os.environ.get('VERIF_INDICES_FILE'):
         indices = [int(x) for x in open(os.environ['VERIF_INDICES_FILE']).read().split()]
     eng = registry.engine_for(prop)
-    t0 = time.time()
-    nviol = 0
-    with open(out, 'w') as fh:
-        it = indices if indices is not None else range(k, n, W)
-        for i in it:
+    # a worker that has grown too large (numba keeps every lookup function it ever compiled) replaces itself by a fresh interpreter and
+    # continues with the next index: outcomes depend on the run index only, so this cannot change them
+    start_pos = int(os.environ.get('VERIF_START_POS', '0'))
+    t0 = float(os.environ.get('VERIF_T0', time.time()))
+    nviol = int(os.environ.get('VERIF_NVIOL', '0'))
+    rss_limit = int(os.environ.get('VERIF_WORKER_RSS_MB', '1600'))
+    with open(out, 'a' if start_pos else 'w') as fh:
+        it = list(indices) if indices is not None else list(range(k, n, W))
+        for pos, i in enumerate(it):
+            if pos < start_pos:
+                continue
+            if pos > start_pos and pos % 20 == 0 and rss_mb() > rss_limit:
+                fh.flush()
+                os.environ.update({'VERIF_START_POS': str(pos), 'VERIF_T0': repr(t0), 'VERIF_NVIOL': str(nviol)})
+                faulthandler.cancel_dump_traceback_later()
+                os.execv(sys.executable, [sys.executable] + sys.argv)
             if time.time() - t0 > cap:
                 fh.write(json.dumps({'truncated_at': i}) + '\n')
                 break
